@@ -1324,6 +1324,9 @@ class Transport(threading.Thread, ClosingContextManager):
         try:
             if len(self.server_accepts) > 0:
                 chan = self.server_accepts.pop(0)
+            elif not self.active:
+                # session is over (or ending): nobody will queue a channel
+                chan = None
             else:
                 self.server_accept_cv.wait(timeout)
                 if len(self.server_accepts) > 0:
@@ -2336,11 +2339,13 @@ class Transport(threading.Thread, ClosingContextManager):
                     self.auth_handler.abort()
                 for event in self.channel_events.values():
                     event.set()
-                try:
-                    self.lock.acquire()
-                    self.server_accept_cv.notify()
-                finally:
-                    self.lock.release()
+            # wake every thread in accept(), also when close() already
+            # cleared the active flag
+            try:
+                self.lock.acquire()
+                self.server_accept_cv.notify_all()
+            finally:
+                self.lock.release()
             self.sock.close()
         except:
             # Don't raise spurious 'NoneType has no attribute X' errors when we
